@@ -192,4 +192,15 @@ theorem tie_queue_dontupdate :
     queueUpdateConds = ["if err != nil", "if dontupdate", "if !ok", "if dontupdate", "if !stillpresent"] ∧
     updateWithRespConds = ["if cq.dontupdate != nil", "if !ok"] := ⟨rfl, rfl⟩
 
+/-- `Queue.poll`: three list stages (mine, available, missing — each a `fetchAll`), deletion only
+for a batch the API does not know; `fetchAll` pages until an empty page and — because its
+`len(params.Order) == 1` test is never true for the string "uuid" — by offset (the `lq` driver's
+executable mirror); `Forget` drops only finished or on-hold entries. -/
+theorem tie_queue_poll :
+    queuePollCalls = ["cq.fetchAll", "cq.fetchAll", "cq.fetchAll", "cq.delEnt"] ∧
+    fetchAllConds = ["if err != nil", "if len(list.Items) == 0",
+                     "if len(params.Order) == 1 && params.Order == \"uuid\""] ∧
+    queueForgetConds = ["if ctr.State == arvados.ContainerStateComplete || ctr.State == arvados.ContainerStateCancelled || (ctr.State == arvados.ContainerStateQueued && ctr.Priority == 0)"] :=
+  ⟨rfl, rfl, rfl⟩
+
 end ArvVerif.Tie.C14
